@@ -169,7 +169,7 @@ pub open spec fn n1_frame(inp: Seq<u8>, out: Seq<u8>, o: int, c: int) -> bool {
                 proof {
                     let p = first_non_whitespace_idx as int;
                     assert(bl.subrange(p, bl.len() as int)[0] == bl[p]);
-                    assert(bl[p] == 0x2au8);
+                    assert(bl[p] == 0x2au8); // [N1.proof.first_non_whitespace_is_star]
                     lemma_after_ascii_is_boundary(line@, p);
                     assert(bl.subrange(0, p) + seq![0x20u8] + bl.subrange(p + 1, bl.len() as int) =~= bl.update(p, 0x20u8));
                 }
